@@ -70,6 +70,14 @@ def check_call(cfg, call):
     if end is None or end[1] == "closed":
         return v
     f = analyse(cfg, call)
+    if f.nested and not f.faulted and end[1] == "raise" and not f.aborted:
+        # the attempt raised a (nested policy's) RetryExhaustedError: it is that attempt's own
+        # exception and leaves call() as the same object
+        if end[3] != f.last.obj:
+            v.append(("c04.wrong-exception",
+                      f"the last attempt raised a nested RetryExhaustedError (object {f.last.obj}); "
+                      f"call() raised {end[2]} (object {end[3]})"))
+        return v
     if f.faulted or f.cancelled or f.nested:
         return v
     last = f.last
